@@ -20,15 +20,17 @@ for f in "$@"; do
   total=$("$S/mutgen" -file "/repo/$f" -list | wc -l)
   pkg=$(dirname "$f")
   for ((i=W; i<total; i+=N)); do
+    grep -q " $f#$i " "$LOG" 2>/dev/null && continue   # already done (the campaign can be stopped and resumed)
     desc=$("$S/mutgen" -file "/repo/$f" -apply $i -out "$S/repo/$f" 2>/dev/null) || continue
     tag="$f#$i line=${desc%% *} ${desc#* }"
     if ! (cd "$S/repo" && GOFLAGS= go build ./... >/dev/null 2>&1); then
       echo "NOT-COMPILING $tag" >> "$LOG"; cp "/repo/$f" "$S/repo/$f"; continue
     fi
-    if ! (cd "$S/repo" && GOFLAGS= timeout 300 go test -vet=off -count=1 "./$pkg/" >/dev/null 2>&1) && [ "$pkg" != rtcm/handler ]; then
+    if ! (cd "$S/repo" && GOFLAGS= timeout 120 go test -vet=off -count=1 -timeout 100s "./$pkg/" >/dev/null 2>&1) && [ "$pkg" != rtcm/handler ]; then
       echo "KILLED-BY-REPO-TESTS $tag" >> "$LOG"; cp "/repo/$f" "$S/repo/$f"; continue
     fi
-    if ! "$VERIF/tools/baseline.sh" "$S/repo" >/dev/null 2>&1; then
+    # (a mutant that hangs the suite does not pass it)
+    if ! timeout 300 "$VERIF/tools/baseline.sh" "$S/repo" >/dev/null 2>&1; then
       echo "KILLED-BY-REPO-TESTS $tag" >> "$LOG"; cp "/repo/$f" "$S/repo/$f"; continue
     fi
     verdict="SURVIVED"
